@@ -213,4 +213,76 @@ def twiceProgs : Tid → List Op := fun t => if t = 0 ∨ t = 1 then [.access 0]
 theorem absent_lock_loads_twice :
     (runSched twiceCfg (initState twiceProgs) [0, 0, 0, 1, 1, 1, 0, 1]).loads 0 = 2 := by decide +kernel
 
+
+/-! ### lock order: package lock before module lock, never the other way round -/
+
+open SqlglotModel.Threads.Routes
+
+/-- finite table fact, decided completely: no module that is executed while a dialect / optimizer module is being
+    imported (the modules under sqlglot/dialects and sqlglot/optimizer and everything their bodies import from
+    sqlglot at module level) re-enters a lazy package `__getattr__` in code that runs at import time
+    (`from sqlglot.dialects import <Name>`, `sqlglot.dialects.<Name>`, `from sqlglot.optimizer import <name>` in top-level
+    statements, class bodies, decorators, default arguments) -/
+theorem generated_no_lazy_reentry : reentryModules = [] := by decide
+
+/-- the two-routes model instantiated with what the translator found in the source -/
+def sourceRoutes : RCfg := { reentry := fun m => reentryModules.contains m }
+
+theorem sourceRoutes_no_reentry (m : Mod) : sourceRoutes.reentry m = false := by
+  simp [sourceRoutes, generated_no_lazy_reentry]
+
+/-- If no module body asks for the package lock while it holds a module lock (lock order acyclic), then no
+    reachable state of any number of threads taking the attribute route (`sqlglot.dialects.X`: package lock, then
+    module lock) and the string route (`Dialect.get_or_raise("x")`: module lock only) in any interleaving is stuck. -/
+theorem lock_order_no_deadlock (cfg : RCfg) (hno : ∀ m, cfg.reentry m = false) (progs : Tid → List Route)
+    (s : RState) (hr : RReach cfg (rinit progs) s) (hnc : ¬ RComplete s) : ∃ t, (rstep cfg s t).isSome = true :=
+  rprogress (RInv.reach hno hr) hnc
+
+/-- … and that is the situation of the current source. -/
+theorem source_two_routes_no_deadlock (progs : Tid → List Route) (s : RState)
+    (hr : RReach sourceRoutes (rinit progs) s) (hnc : ¬ RComplete s) : ∃ t, (rstep sourceRoutes s t).isSome = true :=
+  lock_order_no_deadlock sourceRoutes sourceRoutes_no_reentry progs s hr hnc
+
+/-- the lock words always describe who is where (no re-entry): the package lock is held by exactly the thread
+    between its acquisition and release, each module lock by the thread inside that module -/
+theorem two_routes_lock_ownership (cfg : RCfg) (hno : ∀ m, cfg.reentry m = false) (progs : Tid → List Route)
+    (s : RState) (hr : RReach cfg (rinit progs) s) :
+    (∀ t, (s.pc t).holdsP = true → s.pkg = some (t, 1)) ∧ (∀ t m, (s.pc t).holdsM = some m → s.modLock m = some t) :=
+  ⟨(RInv.reach hno hr).a1, (RInv.reach hno hr).b1⟩
+
+/-- WHY the order matters: module 0's body re-enters the lazy `__getattr__`; thread 0 comes by the attribute route,
+    thread 1 by the string route; after five steps thread 0 holds the package lock and waits for the module lock,
+    thread 1 holds the module lock and waits for the package lock — nobody can step, nobody is done. -/
+def reCfg : RCfg := { reentry := fun m => m == 0 }
+def reProgs : Tid → List Route := fun t => if t = 0 then [.attr 0] else if t = 1 then [.str 0] else []
+def reState : RState := rrun reCfg (rinit reProgs) [0, 0, 1, 1, 1]
+
+theorem reentry_two_routes_deadlock : ¬ RComplete reState ∧ ∀ t, rstep reCfg reState t = none := by
+  constructor
+  · intro h
+    have := (h 0).1
+    revert this
+    decide +kernel
+  · intro t
+    by_cases h0 : t = 0
+    · subst h0
+      have : (rstep reCfg reState 0).isNone = true := by decide +kernel
+      simpa using this
+    · by_cases h1 : t = 1
+      · subst h1
+        have : (rstep reCfg reState 1).isNone = true := by decide +kernel
+        simpa using this
+      · have := rrun_others reCfg t [0, 0, 1, 1, 1] (rinit reProgs) (by simp [h0, h1])
+        apply rstep_none_of_done
+        · unfold reState; rw [this.1]; rfl
+        · unfold reState; rw [this.2]; simp [rinit, reProgs, h0, h1]
+
+/-- the same two threads, same schedule prefix, without the re-entry: both finish -/
+example : (rrun { reentry := fun _ => false } (rinit reProgs) [0, 0, 1, 0, 0, 0, 0, 1, 1, 1, 1]).pc 1 = .idle ∧
+    (rrun { reentry := fun _ => false } (rinit reProgs) [0, 0, 1, 0, 0, 0, 0, 1, 1, 1, 1]).loaded 0 = true := by
+  decide +kernel
+
+/-- a single thread whose module re-enters the package lock is fine under the RLock (nested acquisition) -/
+example : (rrun reCfg (rinit reProgs) [0, 0, 0, 0, 0, 0, 0, 0]).pc 0 = .idle := by decide +kernel
+
 end SqlglotModel.Properties.C19
